@@ -33,8 +33,8 @@ func init() {
 			"Chains containing DCTDecode run inside a testing/synctest bubble so that a helper goroutine left behind is detected exactly. non-trivial = body non-empty and at least one filter; distinct = hash of (chain, parameter shape, body length, corruption kinds, path, consumer).",
 		Assumptions: []string{
 			"the source never fails here (I/O failures are C19); every error must therefore be classified as malformed input",
-			"time is simulated: one tick per function entry and loop iteration inside internal/filter/** (counter inserted by a build overlay, no hook in /repo); bound = K*(StreamBudget(rawLen) + bytes produced), K = 24 DCT, 128 JBIG2, 64 others, calibrated on the unchanged tree; applied only when no stage before the last one can expand; the wall-clock watchdog remains as a backstop",
-			"allocation is bounded by a measured proxy: runtime.MemStats.TotalAlloc delta <= 3*StreamBudget(rawLen) + 16*bytes drained + 32 MiB (the per-stream budget limits live working memory, which cannot be observed directly); a process that exceeds RLIMIT_AS dies and is reported as a crash",
+			"time is simulated: one tick per function entry and loop iteration inside internal/filter/** (counter inserted by a build overlay, no hook in /repo); bound = K*(StreamBudget(rawLen) + bytes produced), K = 24 DCT, 512 JBIG2, 64 others, calibrated on the unchanged tree; applied only when no stage before the last one can expand; the wall-clock watchdog remains as a backstop",
+			"allocation is bounded by a measured proxy: runtime.MemStats.TotalAlloc delta <= 12*budget + 16*bytes drained + 32 MiB, budget = StreamBudget(rawLen) or the larger budget handed to Filter.Decode directly (TotalAlloc is cumulative: a buffer grown by appending up to the budget alone accounts for about five times the budget) (the per-stream budget limits live working memory, which cannot be observed directly); a process that exceeds RLIMIT_AS dies and is reported as a crash",
 			"output: chained Flate/LZW/RunLength stages multiply their expansion, so no input-proportional output bound exists; draining stops at 24 MiB per run. A lone CCITTFax stream must stay below MaxImagePixels/8 + 1 MiB (its geometry cap); the DCT and JBIG2 geometry caps (up to 2 GiB) are too large to drain per run and are covered only through the allocation proxy",
 		},
 		Real:       []string{"seehuhn.de/go/pdf DecodeStream, GetFilters, MakeFilter, all filters and internal codecs incl. JPEG and JBIG2 decoders (working tree)"},
@@ -204,7 +204,7 @@ func Run(e *core.Env) {
 		switch t.Draw("bomb", 5) {
 		case 4: // nested: zeros compressed two or three times, any decoder on top
 			depth := 2 + t.Draw("bomb.depth", 2)
-			mib := tape.Pick(t, "bomb.mib", 1, 4, 12, 24, 48)
+			mib := tape.Pick(t, "bomb.mib", 1, 4, 12, 24, 48, 96, 200)
 			key := fmt.Sprint(mib)
 			var stages []bool
 			for i := 0; i < depth; i++ {
@@ -512,7 +512,9 @@ func decodeAndCheck(e *core.Env, g *getter, dict pdf.Dict, body, globals []byte,
 		}
 		runtime.ReadMemStats(&ms1)
 		alloc := int64(ms1.TotalAlloc - ms0.TotalAlloc)
-		if bound := 3*budgetBytes + 16*int64(drained) + 32<<20; alloc > bound && !e.Failed() {
+		// TotalAlloc is cumulative: a buffer grown by appending up to the
+		// budget alone accounts for about five times the budget
+		if bound := 12*budgetBytes + 16*int64(drained) + 32<<20; alloc > bound && !e.Failed() {
 			e.Fail("allocation", attrs, "TotalAlloc grew by %d bytes for a %d byte body (%d drained); bound %d (dict %s)", alloc, len(body), drained, bound, gen.Show(dict))
 		}
 	}()
@@ -525,6 +527,11 @@ func decodeAndCheck(e *core.Env, g *getter, dict pdf.Dict, body, globals []byte,
 		}
 		if err == nil {
 			small := int64(tape.Pick(t, "budget", int64(1<<30), 0, 1, 100, 4096, 65536, 1<<20))
+			if small > budgetBytes {
+				// the bounds below are relative to the budget the decoder was
+				// really given
+				budgetBytes = small
+			}
 			src := simio.NewReader(body, simio.NewSchedule(t, "ssched", 0))
 			src.EOFWithData = t.Bool("eofWithData", 1, 2)
 			rc, err = f.Decode(g.meta.Version, src, membudget.New(small))
@@ -805,8 +812,9 @@ var corners = map[string]func(e *core.Env){
 // legitimately be traversed a bounded number of times.  K is per decoder family
 // and was calibrated on the unchanged tree (VSIM_CALIB=1): the largest ratios
 // seen were 10.5 (DCT: 64 capped passes over a progressive image of maximal
-// size; about 13 is possible by construction), 34 (JBIG2: its own allowance of
-// 64M + 4096/byte pixel operations) and 33 ticks per output byte for CCITTFax.
+// size; about 13 is possible by construction), 208 (JBIG2: its own allowance of
+// 64M + 4096/byte pixel operations, at up to 28 ticks per charged operation in
+// symbol dictionaries) and 33 ticks per output byte for CCITTFax.
 // What the bound excludes is work that keeps growing without matching input or
 // output: one more pass over the image per 12-byte scan, one loop iteration per
 // unit of a 32-bit header field, and the like.
@@ -816,7 +824,7 @@ func workBound(last pdf.Name, budget, out int64) int64 {
 	case "DCTDecode":
 		k = 24
 	case "JBIG2Decode":
-		k = 128
+		k = 512
 	}
 	return k * (budget + out)
 }
